@@ -195,8 +195,8 @@ Theorem C14_known_classb_sound : forall ST st n c cols,
   known_classb ST st n c cols = true -> KnownClass ST st c cols.
 Proof. exact known_classb_sound. Qed.
 
-(* second shape of F17 (the node's answer at PREPARATION announced other columns and was discarded by
-   Session::prepare): the class the driver computes for it *)
+(* known finding F25, class foreign-cached-metadata-without-ext (the node's answer at PREPARATION
+   announced other columns and was discarded by Session::prepare): the class the driver computes *)
 Theorem C14_known_class_prepb_sound : forall pa ext uc cols,
   known_class_prepb pa ext uc cols = true -> KnownClassPrep pa ext uc cols.
 Proof. exact known_class_prepb_spec. Qed.
@@ -902,7 +902,7 @@ Proof.
   - intros [H _ _]. specialize (H 0%nat). discriminate H.
 Qed.
 
-(* second shape of F17 and the per-node bookkeeping of the nodes without the extension: accepting and
+(* F25's class and the per-node bookkeeping of the nodes without the extension: accepting and
    rejecting instances *)
 Example C14_ex_known_class_prep :
   known_class_prepb [cA; cB] false true cA = true /\      (* a node announced cB at preparation, decoded with cA *)
